@@ -43,7 +43,7 @@ fn main() {
     }
     // attribute configurations x a rich tree, the repository's test interface,
     // and user declarations that meet the standard ones
-    let rich: Vec<String> = ["A", "A?", "A:Bb", "[TeST]:A:Bb?", "*RST", "SYSTem:FOO", "SYSTem:ERRor:FOO?", "OUTPut2:MY_val", "MEASure:A", "MEASurement:Bb", "MEASure:COUNt?", "TRIGger:A", "TRIG_in:Bb", "TRIG1:A", "OUT", "OUT_en?", "OUTA?", "OUT1"].iter().map(|s| s.to_string()).collect();
+    let rich: Vec<String> = ["A", "A?", "A:Bb", "[TeST]:A:Bb?", "*RST", "SYSTem:FOO", "SYSTem:ERRor:FOO?", "OUTPut2:MY_val", "MEASure:A", "MEASurement:Bb", "MEASure:COUNt?", "TRIGger:A", "TRIG_in:Bb", "TRIG1:A", "OUT", "OUT_en?", "OUTA?", "OUT1", "CALibration:TemperatureCompensation?", "TemperatureCompensation:A"].iter().map(|s| s.to_string()).collect();
     let repo: Vec<String> = ["*RST", "*IDN?", "VALue:STRing?", "[SYSTem]:TeST:A", "[SYSTem]:TeST:A?", "MATH:OPeration:MULTiply?", "MATH:OPeration:MULTiplyFloat?", "ARGument:ARBitrary"].iter().map(|s| s.to_string()).collect();
     for (s, e) in [(false, false), (true, false), (false, true), (true, true)] {
         sets.push((rich.clone(), s, e));
